@@ -258,7 +258,7 @@ Proof. exact nonvacuous. Qed.
    ====================================================================================== *)
 From Coq Require QArith.
 From PV Require MiniPy.Syntax MiniPy.Interp MiniTorch.OpsC07 MiniTorch.OpsC01 Gen.C03Src C01.TieLib C01.TieLoop C01.Tie
-  C03.SrcRun C03.TieMath C03.TieLoop C03.Tie.
+  C03.SrcRun C03.TieMath C03.TieLoop C03.Tie C03.TieOcWhole.
 
 (* priority 1: ONE EXECUTION OF THE LOOP BODY (hyp_idx = k) leaves, for every column n, exactly Model.mask_step of
    that column: in `row` the row carried to the next step (insertion / substitution candidates, the fold through
@@ -356,9 +356,70 @@ Theorem c03_source_mask_marks_preserving_tokens :
 Proof. exact C03.Tie.mask_marks_preserving. Qed.
 Print Assumptions c03_source_mask_marks_preserving_tokens.
 
+(* priority 4: THE WHOLE BODY OF optimal_completion (Gen.C03Src.oc_body: the call of _string_matching(.., return_mask=True,
+   exclude_last=..) = the interpretation of sm3_body; `ref.t()`; the duplicate propagation
+   (mask.transpose(1, 2).unsqueeze(2) & (ref.unsqueeze(1) == ref.unsqueeze(2))).any(3); ref.sort(1); mask.gather(2, ..); the
+   neighbour de-duplication and torch.cat; masked_select; counts = mask.sum(2); C = int(counts.max().item()); torch.full;
+   target_mask; targets.masked_scatter_(..); the transposition of batch-first output) returns the tensor of
+   Model.optimal_completion: shape (H', N, C) - (N, H', C) when batch_first - and, flattened, the model's nested lists.
+   Every batch, widths (R > 0), tokens, eos / include_eos / batch_first / exclude_last / padding, costs c / s.  torch.sort is read
+   as a stable sort (see MiniTorch.OpsC03.sort_last2). *)
+Theorem c03_source_optimal_completion_is_model :
+  forall (s : positive) (c : cfg) (N R' H : nat) (ref hyp : list (list Z)) (w : bool),
+  (0 < N)%nat -> C01.Tie.wf_src (c_bf c) N (S R') ref -> C01.Tie.wf_src (c_bf c) N H hyp ->
+  (c_eos c <> None -> H <> 0%nat) ->
+  exists st', C03.TieOcWhole.run_oc Gen.C03Src.oc_body s c N ref hyp w
+              = MiniPy.Interp.Ok (MiniTorch.OpsC07.enc_i (C03.TieOcWhole.model_oc_tensor c N ref hyp)) st'.
+Proof. exact C03.TieOcWhole.oc_body_is_model. Qed.
+Print Assumptions c03_source_optimal_completion_is_model.
+
+(* the same for the three blocks oc_call; oc_post; oc_fin run in sequence *)
+Theorem c03_source_optimal_completion_blocks_is_model :
+  forall (s : positive) (c : cfg) (N R' H : nat) (ref hyp : list (list Z)) (w : bool),
+  (0 < N)%nat -> C01.Tie.wf_src (c_bf c) N (S R') ref -> C01.Tie.wf_src (c_bf c) N H hyp ->
+  (c_eos c <> None -> H <> 0%nat) ->
+  exists st', C03.TieOcWhole.run_oc C03.TieOcWhole.oc_blocks s c N ref hyp w
+              = MiniPy.Interp.Ok (MiniTorch.OpsC07.enc_i (C03.TieOcWhole.model_oc_tensor c N ref hyp)) st'.
+Proof. exact C03.TieOcWhole.oc_blocks_is_model. Qed.
+Print Assumptions c03_source_optimal_completion_blocks_is_model.
+
+(* the executable the harness evaluates on the optimal_completion cases of every run IS that run *)
+Theorem c03_source_src_oc_is_model :
+  forall (c : cfg) (scale : Z) (N R' H : nat) (ref hyp : list (list Z)),
+  (0 < N)%nat -> C01.Tie.wf_src (c_bf c) N (S R') ref -> C01.Tie.wf_src (c_bf c) N H hyp ->
+  (c_eos c <> None -> H <> 0%nat) ->
+  C03.SrcRun.src_oc Gen.C03Src.oc_body c scale N ref hyp = Some (Some (C03.TieOcWhole.model_oc_tensor c N ref hyp)).
+Proof. exact C03.TieOcWhole.src_oc_is_model. Qed.
+Print Assumptions c03_source_src_oc_is_model.
+
+(* composed with c03_oc_row_correct - THE PROPERTY, first sentence, about the interpreted source alone: for positive costs the
+   tensor the source of optimal_completion returns holds, in row k of pair n (W entries at offset ((k * N + n) * W), or
+   ((n * K + k) * W) when batch_first), a strictly increasing list L - hence once each - followed only by padding, and L lists
+   exactly the tokens that can be appended to the first k hypothesis tokens without raising the smallest edit distance a
+   completion can still reach (k = 0, or k below the length of the cut hypothesis, + 1 without exclude_last) *)
+Theorem c03_source_optimal_completion_rows_correct :
+  forall (s : positive) (c : cfg) (N R' H : nat) (ref hyp : list (list Z)) (w : bool),
+  (0 < N)%nat -> C01.Tie.wf_src (c_bf c) N (S R') ref -> C01.Tie.wf_src (c_bf c) N H hyp ->
+  (c_eos c <> None -> H <> 0%nat) ->
+  0 < c_ins c -> 0 < c_del c -> 0 < c_sub c ->
+  exists (K W : nat) (data : list Z) st',
+    C03.TieOcWhole.run_oc Gen.C03Src.oc_body s c N ref hyp w
+      = MiniPy.Interp.Ok (MiniTorch.OpsC07.enc_i (MiniTorch.OpsC07.mkTn (if c_bf c then [N; K; W] else [K; N; W]) data)) st' /\
+    K = S (H + (if c_excl c then 0 else 1) - 1) /\
+    forall n k, (n < N)%nat ->
+      let rseq := denote (c_eos c) (c_incl c) (seq_of (c_bf c) n ref) in
+      let hseq := denote (c_eos c) (c_incl c) (seq_of (c_bf c) n hyp) in
+      (k = 0 \/ k < length hseq + (if c_excl c then 0 else 1))%nat ->
+      exists L,
+        firstn W (skipn ((if c_bf c then n * K + k else k * N + n) * W) data) = L ++ repeat (c_pad c) (W - length L) /\
+        (length L <= W)%nat /\ StronglySorted Z.lt L /\
+        forall t, In t L <-> preserving (c_ins c) (c_del c) (c_sub c) rseq (firstn k hseq) t.
+Proof. exact C03.TieOcWhole.oc_source_rows_correct. Qed.
+Print Assumptions c03_source_optimal_completion_rows_correct.
+
 (* non-vacuity: the ragged batch of c03_nonvacuous (batch-first, eos = 0 counted, garbage after it, a repeated reference
    token, costs 3/2, 1/2, 1, exclude_last) meets the hypotheses, and the interpreted source (blocks and whole body)
-   returns the model's (3, 4, 2) mask, whose marked positions are (k, i, n) = (0,0,0) (0,0,1) (1,1,0) (1,1,1) (2,1,0) (2,3,0)
+   returns the model's (3, 4, 2) mask (and optimal_completion's whole body the (2, 3, 2) tensor ex_out_rag), whose marked positions are (k, i, n) = (0,0,0) (0,0,1) (1,1,0) (1,1,1) (2,1,0) (2,3,0)
    - the positions of the tokens listed in ex_out_rag *)
 Example c03_source_nonvacuous :
   C01.Tie.wf_src (c_bf ex_cfg_rag) 2 4 ex_ref_rag /\ C01.Tie.wf_src (c_bf ex_cfg_rag) 2 3 ex_hyp_rag /\
@@ -369,10 +430,12 @@ Example c03_source_nonvacuous :
     = Some (Some (MiniTorch.OpsC07.mkTn [3; 4; 2]%nat
                     [true; true; false; false; false; false; false; false;
                      false; false; true; true; false; false; false; false;
-                     false; false; true; false; false; false; true; false])).
+                     false; false; true; false; false; false; true; false])) /\
+  C03.SrcRun.src_oc Gen.C03Src.oc_body ex_cfg_rag 4 2 ex_ref_rag ex_hyp_rag
+    = Some (Some (MiniTorch.OpsC07.mkTn [2; 3; 2]%nat (concat (concat ex_out_rag)))).
 Proof.
   split; [split; [reflexivity|intros row [<-|[<-|[]]]; reflexivity]|].
   split; [split; [reflexivity|intros row [<-|[<-|[]]]; reflexivity]|].
   split; [apply Nat.lt_0_succ|]. split; [discriminate|]. split; [discriminate|].
-  split; vm_compute; reflexivity.
+  split; [vm_compute; reflexivity|]. split; vm_compute; reflexivity.
 Qed.
